@@ -73,7 +73,9 @@ Fixpoint hashable (v : val) : bool :=
   | VTuple l => forallb hashable l
   | VFrozenSet _ => true
   | VList _ | VSet _ | VDict _ => false
-  | VInst _ _ => false                      (* attrs classes / dataclasses with eq=True and not frozen *)
+  | VInst c fs =>                           (* attrs classes / dataclasses with eq=True hash only when frozen; *)
+      N.leb 100 c &&                        (* class ids from 100 up denote the frozen classes of the environment *)
+      (fix all (l : list (N * val)) : bool := match l with [] => true | (_, v) :: r => hashable v && all r end) fs
   end.
 
 Definition vmem (v : val) (l : list val) : bool := existsb (val_eqb v) l.
